@@ -23,6 +23,16 @@ pub fn cheap_from(e: crate::errors::Error) -> io::Error {
 pub static mut LAST_SEEK_TARGET: u64 = 0;
 pub static mut SEEKS: u32 = 0;
 
+/// stub for `std::io::Error::new`: same kind, payload forgotten (no boxed `dyn Error`, whose drop
+/// glue the model checker cannot resolve)
+pub fn err_new<E>(kind: io::ErrorKind, e: E) -> io::Error
+where
+    E: Into<Box<dyn std::error::Error + Send + Sync>>,
+{
+    core::mem::forget(e);
+    io::Error::from(kind)
+}
+
 /// Abstract seekable stream: a length and a position, no data.
 /// `seek` follows `std::io::Cursor`: any non-negative target is accepted (also beyond `len`);
 /// a negative or overflowing target is an `InvalidInput` error when `strict` is set, and is
